@@ -77,6 +77,27 @@ func (m *vfCountingUDPMux) RemoveConnByUfrag(ufrag string) {
 	m.UDPMuxDefault.RemoveConnByUfrag(ufrag)
 }
 
+// vfCountingUniMux counts the handles the agent takes from a UniversalUDPMuxDefault (server-reflexive gathering over a
+// shared socket: WithUDPMuxSrflx / AgentConfig.UDPMuxSrflx).
+type vfCountingUniMux struct {
+	*UniversalUDPMuxDefault
+	mu      sync.Mutex
+	handles []*vfCountedConn
+}
+
+func (m *vfCountingUniMux) GetConnForURL(ufrag string, url string, addr net.Addr) (net.PacketConn, error) {
+	pc, err := m.UniversalUDPMuxDefault.GetConnForURL(ufrag, url, addr)
+	if err != nil {
+		return nil, err
+	}
+	cc := &vfCountedConn{PacketConn: pc, kind: "udpmux-srflx:" + ufrag + "@" + url}
+	m.mu.Lock()
+	m.handles = append(m.handles, cc)
+	m.mu.Unlock()
+
+	return cc, nil
+}
+
 type vfFakeTCPConn struct {
 	local  net.Addr
 	closed chan struct{}
@@ -186,6 +207,7 @@ type vfC09Env struct {
 	a     *Agent
 	srv   []*vfStunServer
 	umux  *vfCountingUDPMux
+	smux  *vfCountingUniMux
 	tmux  *vfFakeTCPMux
 	turn  *vfTurnTally
 	kind  string
@@ -241,6 +263,32 @@ func (x *vfC09Env) leaks(includeAgentLifetime bool) []string {
 		}
 		x.tmux.mu.Unlock()
 	}
+	if x.smux != nil {
+		x.smux.mu.Lock()
+		for _, h := range x.smux.handles {
+			if h.closes.Load() == 0 {
+				out = append(out, "mux handle "+h.kind)
+			}
+		}
+		x.smux.mu.Unlock()
+		inner := x.smux.UniversalUDPMuxDefault.UDPMuxDefault
+		for dl := time.Now().Add(2 * time.Second); time.Now().Before(dl); time.Sleep(20 * time.Microsecond) {
+			inner.mu.Lock()
+			n := len(inner.connsIPv4) + len(inner.connsIPv6)
+			inner.mu.Unlock()
+			if n == 0 {
+				break
+			}
+		}
+		inner.mu.Lock()
+		for uf := range inner.connsIPv4 {
+			out = append(out, "srflx udp mux still has a connection registered under "+uf)
+		}
+		for uf := range inner.connsIPv6 {
+			out = append(out, "srflx udp mux still has a v6 connection registered under "+uf)
+		}
+		inner.mu.Unlock()
+	}
 	if x.turn != nil {
 		x.turn.mu.Lock()
 		for i, c := range x.turn.clients {
@@ -289,6 +337,16 @@ func (x *vfC09Env) heldVsOpen() string {
 		}
 		x.umux.mu.Unlock()
 	}
+	if x.smux != nil {
+		x.smux.mu.Lock()
+		for _, h := range x.smux.handles {
+			if h.closes.Load() == 0 {
+				open++
+				names = append(names, h.kind)
+			}
+		}
+		x.smux.mu.Unlock()
+	}
 	if x.tmux != nil {
 		x.tmux.mu.Lock()
 		for _, h := range x.tmux.handles {
@@ -334,7 +392,7 @@ func (x *vfC09Env) awaitCycles(r *vfResult) bool {
 func vfC09Run(e *vfEnv, r *vfResult, idx int) { //nolint:cyclop,maintidx
 	rng := e.rng(idx, "c09")
 	x := &vfC09Env{sw: newVfSwitch()}
-	x.kind = []string{"host", "host+srflx", "srflx", "srflx-2servers-same-mapped", "srflx-mapped", "relay", "udpmux", "tcpmux", "host+srflx+relay"}[rng.IntN(9)]
+	x.kind = []string{"host", "host+srflx", "srflx", "srflx-2servers-same-mapped", "srflx-mapped", "relay", "udpmux", "tcpmux", "host+srflx+relay", "udpmux-srflx"}[rng.IntN(10)]
 	nIP := 1 + rng.IntN(3)
 	ips := []string{}
 	for i := 0; i < nIP; i++ {
@@ -418,6 +476,22 @@ func vfC09Run(e *vfEnv, r *vfResult, idx int) { //nolint:cyclop,maintidx
 		}
 		x.umux = &vfCountingUDPMux{UDPMuxDefault: NewUDPMuxDefault(UDPMuxParams{UDPConn: conn, Logger: vfQuietLogger().NewLogger("ice"), Net: mn})}
 		cfg.UDPMux = x.umux
+	case "udpmux-srflx":
+		// server-reflexive candidates over ONE shared socket (UniversalUDPMuxDefault), one per STUN server
+		cfg.CandidateTypes = []CandidateType{CandidateTypeServerReflexive}
+		addServer("10.255.0.1")
+		if rng.IntN(2) == 0 {
+			addServer("10.255.0.2")
+		}
+		mn := vfSimpleNet(x.sw, "mux", ips...)
+		conn, err := mn.ListenUDP("udp", &net.UDPAddr{IP: net.ParseIP(ips[0]), Port: 7778})
+		if err != nil {
+			r.inconclusive(1)
+
+			return
+		}
+		x.smux = &vfCountingUniMux{UniversalUDPMuxDefault: NewUniversalUDPMuxDefault(UniversalUDPMuxParams{UDPConn: conn, Logger: vfQuietLogger().NewLogger("ice"), Net: mn, XORMappedAddrCacheTTL: time.Millisecond})}
+		cfg.UDPMuxSrflx = x.smux
 	case "tcpmux":
 		cfg.CandidateTypes = []CandidateType{CandidateTypeHost}
 		cfg.NetworkTypes = []NetworkType{NetworkTypeUDP4, NetworkTypeTCP4}
@@ -450,6 +524,9 @@ func vfC09Run(e *vfEnv, r *vfResult, idx int) { //nolint:cyclop,maintidx
 		_ = a.Close()
 		if x.umux != nil {
 			_ = x.umux.UDPMuxDefault.Close()
+		}
+		if x.smux != nil {
+			_ = x.smux.UniversalUDPMuxDefault.Close()
 		}
 	}()
 	mapped := func(c int) netip.AddrPort {
@@ -676,6 +753,11 @@ func vfC09Run(e *vfEnv, r *vfResult, idx int) { //nolint:cyclop,maintidx
 	r.count("c09_sockets_closed_more_than_once", int64(multi))
 	if x.turn != nil {
 		r.count("c09_turn_clients", int64(len(x.turn.clients)))
+	}
+	if x.smux != nil {
+		x.smux.mu.Lock()
+		r.count("c09_srflx_mux_handles", int64(len(x.smux.handles)))
+		x.smux.mu.Unlock()
 	}
 	r.distinct(fmt.Sprintf("c09/%s/ips%d/cycles%d/%v/final=%s/filter=%v/fault=%v", x.kind, nIP, nCycles, x.trace, final, cfg.IPFilter != nil, len(x.sw.failListen) > 0))
 	if idx < 4 {
